@@ -16,9 +16,15 @@ package logx
 //@   ensures [reopened] result == nil ==> l.fp != nil && l.fp == ret(os.Create, 0) && calls(os.Create, old(l.filename)) == 1
 //@   ensures [failed-create] calls(os.Create) == 1 && ret(os.Create, 1) != nil ==> result != nil && l.fp == nil
 //@   ensures [order] before(Close, os.Rename) && before(os.Rename, os.Create) && before(Close, os.Create)
-//@   ensures [rename-current-to-backup] calls(os.Rename) <= 1 && (calls(os.Rename) == 1 ==> arg(os.Rename, 0) == old(l.filename) && arg(os.Rename, 1) == old(l.backup))
-//@   ensures [rename-iff] calls(os.Create) == 1 ==> (calls(os.Rename) == 1) == (ret(os.Stat, 1) == nil && len(old(l.backup)) > 0)
-//@   ensures [next-backup-name] calls(os.Create) == 1 ==> l.backup == ret(l.rule.BackupFilename, 0)
+// every record is in exactly ONE backup: a rotation never renames the current file onto a backup that already exists
+// (the name was fixed when the current file was started, with one-second resolution: after a rotation within the
+// logger's first second it equals the previous backup's name) - then a name of this moment is taken instead
+//@   replay-for existing-backup-never-overwritten logx_backup_overwritten
+//@   let targetExists = ret(os.Stat, 1, 2) == nil
+//@   ensures [existing-backup-never-overwritten] calls(os.Rename) == 1 ==> calls(os.Stat) == 2 && arg(os.Stat, 0, 2) == old(l.backup) && (targetExists ==> arg(os.Rename, 1) == ret(l.rule.BackupFilename, 0, 1)) && (!targetExists ==> arg(os.Rename, 1) == old(l.backup))
+//@   ensures [rename-current-to-backup] calls(os.Rename) <= 1 && (calls(os.Rename) == 1 ==> arg(os.Rename, 0) == old(l.filename))
+//@   ensures [rename-iff] calls(os.Create) == 1 ==> (calls(os.Rename) == 1) == (ret(os.Stat, 1, 1) == nil && len(old(l.backup)) > 0)
+//@   ensures [next-backup-name] calls(os.Create) == 1 ==> l.backup == ret(l.rule.BackupFilename, 0, last)
 //@   ensures [close-old] old(l.fp) != nil ==> calls(old(l.fp).Close) == 1
 //@   ensures [filename-kept] l.filename == old(l.filename)
 //@   modifies l.fp, l.backup
